@@ -323,6 +323,18 @@ static bool distinct_points(const double *p, int npts) {
 static void judge(Result &R, Counters &C, const char *pred, const char *fam, const double *p,
                   int npts, int ref, int ex, int ad) {
   const int n = 3 * npts;
+  if (ex == ref && ad == ex)
+    return;
+  {
+    // a broken predicate fails on millions of inputs: after the first few reports of a class
+    // (per thread) only count
+    static thread_local std::map< std::string, int > seen;
+    const std::string cls = fmt("%s:%s:%d:%d:%d", pred, fam, ref, ex, ad);
+    if (++seen[cls] > 3) {
+      ++C.mism;
+      return;
+    }
+  }
   if (ex != ref) {
     ++C.mism;
     R.violation(fmt("C17:%s_exact:wrong-sign:%s:%s", pred, fam, ref == 0 ? "det-zero" : "det-nonzero"),
@@ -486,6 +498,9 @@ static void run_alphabet(Result &R, Counters &total, const char *pred, int npts,
             const signed char *tab = which ? tab_ad.data() : tab_ex.data();
             if (tab[j] != q.sign * tab[idx]) {
               ++C.mism;
+              static thread_local int nrep[2][2] = {{0, 0}, {0, 0}};
+              if (++nrep[which][q.sign < 0] > 3)
+                continue;
               double p[15], pp[15];
               uint64_t t2 = idx;
               for (int i = 0; i < n; ++i) {
@@ -620,6 +635,9 @@ static void run_family(Result &R, Counters &total, const char *pred, int npts, c
               judge(R, C, pred, fam.c_str(), pp, npts, want, ex, ad);
             } else {
               ++C.mism;
+              static thread_local int nrep = 0;
+              if (++nrep > 6)
+                continue;
               const char *who = ex != want ? "exact" : "adaptive";
               R.violation(fmt("C17:%s_%s:permutation:%s:%s", pred, who, fam.c_str(),
                               q.sign < 0 ? "odd" : "even"),
